@@ -49,7 +49,8 @@ async fn raw_replier(peer: RawPeer, topic: String, timeout_ms: u64) -> anyhow::R
         if let Frame::Message(req) = frame {
             let text = String::from_utf8_lossy(&req.message).to_string();
             let action = text.rsplit('|').next().unwrap_or("quick").to_string();
-            let reply = |headers| Frame::Message(MessagePayload { headers, message: format!("re:{}", text).into() });
+            let short = abbrev(&text);
+            let reply = |headers| Frame::Message(MessagePayload { headers, message: format!("re:{}", short).into() });
             match action.as_str() {
                 "late" => {
                     // delivered by a separate task so that later requests are not delayed
@@ -61,6 +62,12 @@ async fn raw_replier(peer: RawPeer, topic: String, timeout_ms: u64) -> anyhow::R
                     });
                 }
                 "never" => {}
+                "slow" => {
+                    // a replier that is slow to take the next request: the router blocks on its sink, the
+                    // requestors' streams fill up and their sends have to wait for one another
+                    tokio::time::sleep(Duration::from_millis(120)).await;
+                    let _ = tx.send((Duration::ZERO, reply(req.headers.clone())));
+                }
                 "twice" => {
                     let _ = tx.send((Duration::ZERO, reply(req.headers.clone())));
                     let _ = tx.send((Duration::ZERO, reply(req.headers.clone())));
@@ -96,6 +103,15 @@ async fn raw_replier(peer: RawPeer, topic: String, timeout_ms: u64) -> anyhow::R
     Ok(())
 }
 
+/// long payloads are shown (and answered) in abbreviated form: first 40 characters, length, action
+fn abbrev(t: &str) -> String {
+    if t.len() > 200 {
+        format!("{}#{}|{}", &t[..40], t.len(), t.rsplit('|').next().unwrap_or(""))
+    } else {
+        t.to_string()
+    }
+}
+
 fn outcome(r: Result<String, SeliumError>) -> String {
     match r {
         Ok(s) => format!("ok:{}", s),
@@ -109,6 +125,7 @@ pub async fn run_case(client: &Client, addr: std::net::SocketAddr, certs: &Certs
     let topic = format!("/c04ns{}/t{:03}", seed % 100_000, i);
     let timeout_ms = 400u64;
     let _ = writeln!(out, "case c04 {} {} timeout_ms={}", seed, i, timeout_ms);
+    crate::util::set_case_header(&format!("case c04 {} {} timeout_ms={}", seed, i, timeout_ms));
     let raw = match RawPeer::connect_trusted(addr, certs).await {
         Ok(p) => p,
         Err(e) => {
@@ -250,6 +267,65 @@ pub async fn run_case(client: &Client, addr: std::net::SocketAddr, certs: &Certs
                 let t0 = Instant::now();
                 let rc = q.request(pc.clone()).await;
                 let _ = writeln!(out, "call {} {} quick {} -> {} {}", s_t, 410 + k, pc, outcome(rc), t0.elapsed().as_millis());
+            }
+        }
+    }
+    // contention on one requestor stream: six clones send 1 MB requests to a replier that is slow to
+    // take them (their sends queue up behind one another on the shared write half); meanwhile one clone
+    // makes a request that is too large to be sent at all (it fails locally, after waiting its turn),
+    // another clone makes a small request while that one waits, and the first clone makes a small
+    // request after its failure: every Ok must still carry the reply to its own request
+    if i % 2 == 0 {
+        let b = client
+            .requestor(&topic)
+            .with_request_encoder(StringCodec)
+            .with_reply_decoder(StringCodec)
+            .with_request_timeout(Duration::from_millis(8000));
+        if let Ok(Ok(q)) = match b {
+            Ok(b) => Ok(b.open().await),
+            Err(e) => Err(e),
+        } {
+            let s_c = streams + 50;
+            let mut bigs = vec![];
+            for k in 0..6u64 {
+                let mut qc = q.clone();
+                let payload = format!("rq-{}-6-{}-{}|slow", s_c, k, "x".repeat(1_000_000));
+                bigs.push(tokio::spawn(async move {
+                    let t0 = Instant::now();
+                    let r = qc.request(payload.clone()).await;
+                    (k, abbrev(&payload), outcome(r), t0.elapsed().as_millis())
+                }));
+            }
+            let (mut a, mut bq) = (q.clone(), q.clone());
+            let ta = tokio::spawn(async move {
+                tokio::time::sleep(Duration::from_millis(30)).await;
+                let p1 = format!("rq-{}-6-10-{}|toobig", s_c, "y".repeat(2 * 1024 * 1024));
+                let t0 = Instant::now();
+                let r1 = a.request(p1.clone()).await;
+                let m1 = t0.elapsed().as_millis();
+                let p2 = format!("rq-{}-6-12|quick", s_c);
+                let t0 = Instant::now();
+                let r2 = a.request(p2.clone()).await;
+                (abbrev(&p1), outcome(r1), m1, p2, outcome(r2), t0.elapsed().as_millis())
+            });
+            let tb = tokio::spawn(async move {
+                tokio::time::sleep(Duration::from_millis(60)).await;
+                let p = format!("rq-{}-6-11|quick", s_c);
+                let t0 = Instant::now();
+                let r = bq.request(p.clone()).await;
+                (p, outcome(r), t0.elapsed().as_millis())
+            });
+            for h in bigs {
+                if let Ok((k, p, res, ms)) = h.await {
+                    let _ = writeln!(out, "call {} {} slow {} -> {} {}", s_c, 600 + k, p, res, ms);
+                }
+            }
+            if let Ok((p1, r1, m1, p2, r2, m2)) = ta.await {
+                let _ = writeln!(out, "call {} 610 toobig {} -> {} {}", s_c, p1, r1, m1);
+                let _ = writeln!(out, "call {} 612 quick {} -> {} {}", s_c, p2, r2, m2);
+            }
+            if let Ok((p, r, ms)) = tb.await {
+                let _ = writeln!(out, "call {} 611 quick {} -> {} {}", s_c, p, r, ms);
             }
         }
     }
